@@ -738,6 +738,13 @@ def rand_link_attr(rng, A, directed):
         L = np.triu(L, 1)
         L = L + L.T
     L = L * (np.asarray(A) != 0)
+    if rng.randint(4) == 0:
+        # links of length exactly 0 are legal (co-located nodes): distinct connected nodes at weighted distance 0
+        Z = rng.random_sample((n, n)) < 0.3
+        if not directed:
+            Z = np.triu(Z, 1)
+            Z = Z | Z.T
+        L = np.where(Z, 0.0, L)
     return L.tolist()
 
 
